@@ -119,6 +119,10 @@ def traced_container_fails(case):
         els = [[x[0] * x[1], x[2]], [x[1], x[0] * x[2]]]
         if kind == 'const-first':
             els[0][0] = 2.0
+        if kind == 'complex-later':
+            els[1][0] = 1j * x[1]               # a complex polynomial after real ones: the result is complex
+        if kind == 'complex-constant-later':
+            els[1][1] = 2j
         return utils.ndarray2utpm(els)
     ux = UTPM(x0.copy())
     want = build(ux)
@@ -498,7 +502,7 @@ def run(ctx):
                 f = 'exception-%s: %s' % (case['op'], type(ex).__name__ + ':' + str(ex)[:100])
             if f:
                 ctx.report(case, 'failure', f)
-    for kind in ('plain', 'const-first'):
+    for kind in ('plain', 'const-first', 'complex-later', 'complex-constant-later'):
         for D_, P_ in ((1, 1), (3, 2)):
             case = {'op': 'traced-container', 'kind': kind, 'D': D_, 'P': P_, 'x': rand_coeffs(ctx.rng, (D_, P_, 3), -2, 2)}
             ctx.evaluations += 1
